@@ -3,7 +3,7 @@
 import json, os, sys
 HERE = os.path.dirname(os.path.dirname(os.path.abspath(__file__)))
 sys.path.insert(0, HERE)
-from tools.claims import CLAIMS, NOT_APPLICABLE, FIX_COMMITS  # noqa
+from tools.claims import CLAIMS, NOT_APPLICABLE, FIX_COMMITS, ADDENDA  # noqa
 
 BASE = "cd /repo && /venv/bin/python -m pytest -ra -q -p no:cacheprovider --timeout=900 --continue-on-collection-errors"
 m = {
@@ -15,7 +15,7 @@ m = {
         {"name": "gxstat", "path": "gxstat/", "serves_properties": sorted(CLAIMS),
          "kind_free_text": "repository-specific static analysis on CPython's ast: resolved class/call model, parameter registry extraction, syntax-directed flow facts, exact rational normal forms of expressions, sign/degree/unit-scale/affine-index abstract domains, report writer/reader template model"}],
     "checks": [],
-    "notes": "All checks are static (level category 'other'): `./check <ID>` parses /repo's working tree on every run, executes nothing from it. Exit 0 = all obligations discharged (known findings printed), 1 = VIOLATION, 2 = ANALYSIS-ERROR (anchor vanished / unsupported construct; never a silent pass). Genuine defects repaired in /repo as 'fix:' commits: " + ", ".join(FIX_COMMITS) + ". Recorded-not-repaired defects are in known_findings.json. Before the rules run the parsed tree is normalised by exact, purely syntactic transformations (single-use private helpers put back into their caller, one-expression helpers inlined, returned variables renamed back by role; listed per run in evidence coverage.analysed), so that behaviour-preserving refactorings are analysed as the code they are. The thorough tier additionally audits the checker itself on scratch copies (catalogued mutants/twins, 118 seeded defects, 100 behaviour-preserving refactorings by independent authors); the audit never changes the verdict on the tree.",
+    "notes": "All checks are static (level category 'other'): `./check <ID>` parses /repo's working tree on every run, executes nothing from it. Exit 0 = all obligations discharged (known findings printed), 1 = VIOLATION, 2 = ANALYSIS-ERROR (anchor vanished / unsupported construct; never a silent pass). Genuine defects repaired in /repo as 'fix:' commits: " + ", ".join(FIX_COMMITS) + ". Recorded-not-repaired defects are in known_findings.json. Before the rules run the parsed tree is normalised by exact, purely syntactic transformations (single-use private helpers put back into their caller, one-expression helpers inlined, returned variables renamed back by role; listed per run in evidence coverage.analysed), so that behaviour-preserving refactorings are analysed as the code they are. The thorough tier additionally audits the checker itself on scratch copies (catalogued mutants/twins, 178 seeded defects and about 300 behaviour-preserving refactorings by independent authors); the audit never changes the verdict on the tree.",
     "not_applicable": [{"property_id": k, "reason": v} for k, v in sorted(NOT_APPLICABLE.items())],
 }
 for pid in sorted(CLAIMS):
@@ -27,7 +27,7 @@ for pid in sorted(CLAIMS):
         "evidence_file": f"evidence/{pid}.json",
         "replay_cmd_template": f"./check {pid} --replay {{path}}",
         "engine": "gxstat",
-        "level_claimed": {"category": "other", "text": c["text"], "design_ref": f"DESIGN.md section 4, {pid}"},
+        "level_claimed": {"category": "other", "text": (c["text"] + " " + ADDENDA.get(pid, "")).strip(), "design_ref": f"DESIGN.md section 4, {pid}"},
         "level_note": c["note"],
         "technique": c["technique"],
     })
